@@ -540,7 +540,7 @@ def certificates(rng, samples, records, per_kind):
     from pylife.materiallaws.notch_approximation_law_seegerbeste import SeegerBeste
     picks = list(samples)
     rng.shuffle(picks)
-    for smp in picks[:max(2, per_kind // 2)]:
+    for smp in picks[:max(3, per_kind // 2 - 1)]:
         E, K, n, Kp = smp['E'], smp['K'], smp['n'], smp['K_p']
         en = ExtendedNeuber(E, K, n, Kp)
         L = rng.choice(smp['loads']) * rng.choice([1, -1])
@@ -621,7 +621,7 @@ def run(res, only=None):
                        'containers float / np.float64 / 0-d / 1-element ndarray and Series / ndarray / Series; non-trivial = distinct (law, branch, material, K_p, load) whose load has a '
                        'plastic strain share > 1e-6 (the law differs from sigma = L), counted over returned values that were checked')
     proofs_ok = common.standard_proof_stage(res, 'C06', extra_targets=['theories/Common/Cert.vo'], gen_fn=lambda: gen_specs.generate(GEN))
-    k, m, per_kind = (36, 5, 10) if quick else (400, 8, 45)
+    k, m, per_kind = (36, 5, 8) if quick else (400, 8, 45)
     samples = only if only is not None else gen_samples(res.rng, k, m)
     st, records = Stats(), []
     for smp in samples:
